@@ -121,3 +121,52 @@ Example ex4_order_differs :
   ex4_ids (QQ.sq_search running_filter (table_of ex4_store)) = Some [40; 50; 30]%N /\
   ex4_ids (QQ.cosmos_search 5 running_filter (cstore_of 5 ex4_store)) = Some [40; 50; 30]%N.
 Proof. vm_compute. repeat split; reflexivity. Qed.
+
+(* ---- item 5: an action with 2 retries: transient error, then an attempt the engine times out while the plugin is
+        still inside (its End arrives late), then success; terminal write repeated (stutter).  Accepted by the
+        engine's dispatch and, mapped, by ActionAuto; the same final phase. *)
+From Coercion.Engine Require Event Action.
+From Coercion.Attempts Require ActionRun ActionAuto.
+From Coercion.Glue Require Import GlueAction GlueActionProofs.
+
+Definition ex5_trace : list eev :=
+  [XWrite NotStarted 0 false; XWrite Running 0 false; XStart; XEnd EE.OErr; XWrite Running 1 false;
+   XStart; XWrite Running 2 false; XEnd EE.OOverrun; XStart; XEnd EE.OOk; XWrite Running 3 true;
+   XWrite Completed 3 true; XWrite Completed 3 true].
+
+Example ex5_accepted :
+  option_map efinal (erun 2 ex5_trace) = Some true /\
+  option_map e_a (erun 2 ex5_trace) = Some (EA.ADone true 3) /\
+  AA.accepted 2 (map ev_of ex5_trace) = true /\
+  option_map AA.a_ph (AA.arun 2 (map ev_of ex5_trace)) = Some (AA.ADone true 3) /\
+  map ev_of ex5_trace =
+    [AR.AWIdle; AR.AWRun; AR.AStart; AR.AEnd (AR.ORet AR.PNil AR.PTrans); AR.AWAtt 1 false;
+     AR.AStart; AR.AWAtt 2 false; AR.AEnd AR.OOverrun; AR.AStart; AR.AEnd (AR.ORet AR.PGood AR.PNoErr);
+     AR.AWAtt 3 true; AR.AWDone true 3; AR.AWDone true 3].
+Proof. vm_compute. repeat split; reflexivity. Qed.
+
+(* with only 1 retry the third invocation is refused by both *)
+Example ex5_retries_exhausted :
+  erun 1 ex5_trace = None /\ AA.arun 1 (map ev_of ex5_trace) = None.
+Proof. vm_compute. split; reflexivity. Qed.
+
+(* THE DISAGREEMENT (no counterexample to the refinement, which goes engine -> attempts): the retry's Start
+   arrives BEFORE the late End of the attempt the engine timed out.  ActionAuto accepts it, the engine's
+   dispatch refuses the Start (Auto.h_start: owes (s_late s) a). *)
+Definition ex5_start_before_late_end : list eev :=
+  [XWrite Running 0 false; XStart; XWrite Running 1 false; XStart; XEnd EE.OOverrun; XEnd EE.OOk;
+   XWrite Running 2 true; XWrite Completed 2 true].
+
+Example ex5_disagreement :
+  AA.accepted 1 (map ev_of ex5_start_before_late_end) = true /\
+  erun 1 ex5_start_before_late_end = None /\
+  option_map e_late (erun 1 (firstn 3 ex5_start_before_late_end)) = Some 1 /\
+  option_map (fun s => estep 1 s XStart) (erun 1 (firstn 3 ex5_start_before_late_end)) = Some None.
+Proof. vm_compute. repeat split; reflexivity. Qed.
+
+(* the five outcomes the engine alphabet cannot express, and the class each is read as *)
+Example ex5_lost_outcomes :
+  map proj [AR.ORet AR.PNil AR.PNoErr; AR.ORet AR.PGood AR.PTrans; AR.ORet AR.PGood AR.PPerm;
+            AR.ORet AR.PBad AR.PTrans; AR.ORet AR.PBad AR.PPerm]
+  = [EE.OOk; EE.OErr; EE.OPerm; EE.OWrongType; EE.OWrongType].
+Proof. reflexivity. Qed.
